@@ -358,7 +358,7 @@ func runC15(c *CaseCtx) {
 func init() {
 	register(&Check{
 		ID: "C15", Level: "exploration", LeakClass: "merge-handles",
-		NCases: func(t string) int { return tier(t, 240, 10000) },
+		NCases: func(t string) int { return tier(t, 240, 5000) },
 		Run:    runC15,
 		Rule: "[also: 1 case in 16 is a large-geometry history (segments of 9-330 KB: >1000 live records in one segment, or values of 1-69 KB around the 4 KiB and 64 KiB marks and with whole pages of zero bytes; Merge and reopen twice, compared with the model);] case = seeded history (KV with TTL/deletes, or sets, or sorted sets, or lists, or KV+sets+sorted sets mixed; failing and oversized transactions whose uncommitted records stay in the log; SegmentSize 96-400 so that 5-30 files take part) with Merge called with <2 files, after the first phase, twice in a row, and again after a reopen; " +
 			"the full observation must equal the reference model immediately before and after each Merge (success or error), after later writes, and after each reopen; B+ tree / skip-list walkers after each Merge; one scenario class per structure kind; non-trivial = at least one successful Merge; distinct by history hash",
@@ -437,7 +437,7 @@ func runC16(c *CaseCtx) {
 func init() {
 	register(&Check{
 		ID: "C16", Level: "fault_enumeration",
-		NCases: func(t string) int { return tier(t, 48, 600) },
+		NCases: func(t string) int { return tier(t, 48, 400) },
 		Run:    runC16,
 		Rule: "case = generated pre-merge history (KV / sets / sorted sets with ZAdd+ZRem / those mixed / sorted sets with positional removals / lists; small segments so 5-30 files take part), then Merge runs under the file-mutation monitor: EVERY event inside Merge (open, truncate, write, sync, close, remove) is a crash point and every write is also torn at the record-field boundaries; " +
 			"each image is re-opened with the real Open and fully observed; oracle: recovered contents == contents before Merge (the reference model's state); one scenario class per structure kind; non-trivial = >=10 images; distinct by history hash",
